@@ -224,7 +224,26 @@ func genC15(kind string) func(r *core.Rng) any {
 				add("DrawText", []float64{x, y})
 			case 28:
 				x, y := pt()
-				add("DrawImage", []float64{x, y, core.PickF(r, []float64{1, 2, 0.5, r.Range(0.2, 10)})}, r.IntRange(1, 6), r.IntRange(1, 6))
+				if r.Bool() {
+					add("DrawImage", []float64{x, y, core.PickF(r, []float64{1, 2, 0.5, r.Range(0.2, 10)})}, r.IntRange(1, 6), r.IntRange(1, 6))
+					break
+				}
+				// FitImage: for ImageCover the rectangle has the aspect ratio of the image cropped by a whole
+				// number of pixels on both sides of one axis, so that the crop does not depend on rounding
+				w, h := r.IntRange(2, 12), r.IntRange(2, 12)
+				fit := r.Intn(3)
+				W, H := r.Range(3, 60), r.Range(3, 60)
+				if fit == 2 {
+					cw, ch := w, h
+					if r.Bool() {
+						cw = w - 2*r.Intn((w+1)/2)
+					} else {
+						ch = h - 2*r.Intn((h+1)/2)
+					}
+					sc := r.Range(0.5, 6)
+					W, H = sc*float64(cw), sc*float64(ch)
+				}
+				add("FitImage", []float64{x, y, W, H}, w, h, fit)
 			default:
 				add("MutateLast", nil) // the caller changes the path object it drew last
 			}
@@ -620,6 +639,42 @@ func c15Run(c *c15Case, r canvas.Renderer, rec *c15Recorder, o *core.Obs, label 
 				}
 				expect = append(expect, c15Draw{Kind: "image", M: m, Z: z, ImgW: op.I[0], ImgH: op.I[1]})
 				ctx.DrawImage(f[0], f[1], img, canvas.DPMM(f[2]))
+			case "FitImage":
+				// the image (cropped for ImageCover) fills / is contained in / covers the rectangle
+				// (x,y)-(x+W,y+H) of the context, upright in flipped systems like DrawImage
+				w, h := float64(op.I[0]), float64(op.I[1])
+				img := image.NewRGBA(image.Rect(0, 0, op.I[0], op.I[1]))
+				x, y, W, H := f[0], f[1], f[2], f[3]
+				xres, yres := w/W, h/H
+				cw, ch := w, h
+				switch op.I[2] {
+				case 1: // contain: one resolution, centred
+					if xres < yres {
+						x += (W - w/yres) / 2
+						xres = yres
+					} else {
+						y += (H - h/xres) / 2
+						yres = xres
+					}
+				case 2: // cover: crop the axis that sticks out, the same number of pixels on both sides
+					if xres < yres {
+						ch = h - 2*math.Round((h-H*xres)/2)
+						yres = ch / H
+					} else {
+						cw = w - 2*math.Round((w-W*yres)/2)
+						xres = cw / W
+					}
+				}
+				m := drawM(x, y).mul(affS(1/xres, 1/yres))
+				if st.Sys == 2 || st.Sys == 3 {
+					m = m.mul(affAbout(affS(1, -1), 0, ch/2))
+				}
+				if st.Sys == 1 || st.Sys == 2 {
+					m = m.mul(affAbout(affS(-1, 1), cw/2, 0))
+				}
+				expect = append(expect, c15Draw{Kind: "image", M: m, Z: z, ImgW: int(cw), ImgH: int(ch)})
+				fit := []canvas.ImageFit{canvas.ImageFill, canvas.ImageContain, canvas.ImageCover}[op.I[2]]
+				ctx.FitImage(img, canvas.Rect{X0: f[0], Y0: f[1], X1: f[0] + W, Y1: f[1] + H}, fit)
 			}
 		})
 		if panicked {
@@ -696,6 +751,12 @@ func c15Compare(o *core.Obs, label, where string, got []c15Call, want []c15Draw)
 			}
 			if d := c15StyleDiff(g.Style, sty, true); d != "" {
 				o.Fail("draw-style", "%s: %s: call %d (path %s) has a style other than the one current when it was drawn: %s", label, where, k, dstr(w.Data), d)
+				return false
+			}
+		}
+		if w.Kind == "image" && g.Img != nil && w.ImgW > 0 {
+			if b := g.Img.Bounds(); b.Dx() != w.ImgW || b.Dy() != w.ImgH {
+				o.Fail("draw-image-size", "%s: %s: call %d carries an image of %dx%d pixels, expected %dx%d", label, where, k, b.Dx(), b.Dy(), w.ImgW, w.ImgH)
 				return false
 			}
 		}
